@@ -52,7 +52,9 @@ def solve_adaptive_save_every_step(solver, error, control=None, clip_dt=False):
         rejection_loop_apply = func.jit(loop.loop)
 
         solutions = []
-        while state.step_from.t < t1:
+        # Same predicate as in RejectionLoop.loop (otherwise, a step that ends
+        # within eps of t1 makes this loop spin forever without advancing)
+        while state.step_from.t + eps < t1:
             solution, state = rejection_loop_apply(
                 state, t1=t1, eps=eps, atol=atol, rtol=rtol, damp=damp
             )
